@@ -29,10 +29,13 @@ CLAIMED = {
     "C13": dict(ref="DESIGN.md §3 C13", note=NOTE + "; partial: sequential core only, no goroutines, no memory model",
                 text="Snapshot isolation of the chunk list under every sequence of pushes and snapshots, and the ChunkCache's full-chunk-only rule, are decided "
                      "exhaustively inside the bound; data races and the cancellation protocol of scan are NOT claimed."),
+    "C04": dict(ref="DESIGN.md §3 C04", note=NOTE + "; partial: buildResult's positional keys and the goroutines of scan are outside",
+                text="The rank comparator (both build variants) is proved to be the documented lexicographic order for all 2^64 keys and indices; the lazy "
+                     "merger is proved to return the stable global order for arbitrary probe orders; pass-through mergers and partitioning for partial chunks."),
 }
 PENDING = "check not built yet in this session (planned, see DESIGN.md §3)"
 NA = {
-    "C01": PENDING, "C04": PENDING, "C07": PENDING, "C08": PENDING, "C09": PENDING,
+    "C01": PENDING,  "C07": PENDING, "C08": PENDING, "C09": PENDING,
      "C12": PENDING, "C16": PENDING, "C19": PENDING,
     "C14": "terminal modes, child processes, signals and the goroutine/channel render loop are OS effects and schedules, not a bounded computation the SSA→SMT encoder can make symbolic (DESIGN.md §5)",
     "C15": "relation between the whole Terminal state and the byte stream written through tui.Window; thousands of lines of drawing code on uniseg tables with no leaf whose correctness implies the property (DESIGN.md §5)",
